@@ -48,3 +48,4 @@ def rules(ctx):
     S.round4_residue_rules(ctx)
     S.survey3_rules(ctx)
     S.round5_rules(ctx)
+    S.handover_rules(ctx)
